@@ -8,6 +8,6 @@ if ! git -C /repo diff --quiet; then echo "/repo has local changes; refusing"; e
 git -C /repo apply "$patch" || { echo "patch does not apply"; exit 2; }
 trap 'git -C /repo checkout -- . ; git -C /repo clean -fdq' EXIT INT TERM
 for c in "$@"; do
-  out=$(./check "$c" --tier "$tier" 2>&1); rc=$?
+  out=$(VERIF_OUT=/tmp/m/tryout ./check "$c" --tier "$tier" 2>&1); rc=$?
   echo "== $c rc=$rc"; echo "$out" | grep -E "VIOLATION|KNOWN|^\[C" | head -6
 done
